@@ -1,15 +1,27 @@
 #!/usr/bin/env python3
-"""Apply each R*.diff of a directory to /repo, run every claimed quick check, revert; print checks that do not exit 0."""
+"""Apply each given diff (or each R*.diff of a directory) to /repo, run every claimed quick check in parallel, revert;
+print the checks that do not exit 0.  Usage: try_refactor.py <dir-or-diff>... [--only C07,C12]"""
 import glob, json, os, subprocess, sys
+from concurrent.futures import ThreadPoolExecutor
 VERIF = os.path.dirname(os.path.dirname(os.path.abspath(__file__)))
 def sh(cmd, cwd=None):
     p = subprocess.run(cmd, shell=True, cwd=cwd, capture_output=True, text=True, timeout=900)
     return p.returncode, p.stdout + p.stderr
-d = sys.argv[1]
+args = [a for a in sys.argv[1:] if not a.startswith("--")]
+only = None
+for a in sys.argv[1:]:
+    if a.startswith("--only="):
+        only = a.split("=", 1)[1].split(",")
+diffs = []
+for a in args:
+    diffs += sorted(glob.glob(os.path.join(a, "*R*.diff"))) if os.path.isdir(a) else [a]
 manifest = json.load(open(os.path.join(VERIF, "MANIFEST.json")))
+pids = [c["property_id"] for c in manifest["checks"] if only is None or c["property_id"] in only]
 rc, o = sh("git status --porcelain", "/repo")
 assert not o.strip(), "repo dirty"
-for diff in sorted(glob.glob(os.path.join(d, "R*.diff"))):
+total_bad = 0
+for diff in diffs:
+    diff = os.path.abspath(diff)
     rc, o = sh(f"git apply --check {diff} && git apply {diff}", "/repo")
     if rc != 0:
         print(f"{os.path.basename(diff)}: does not apply to /repo HEAD: {o.strip()[:200]}")
@@ -17,16 +29,19 @@ for diff in sorted(glob.glob(os.path.join(d, "R*.diff"))):
         continue
     bad = []
     try:
-        for c in manifest["checks"]:
-            pid = c["property_id"]
-            rcc, oc = sh(f"./check {pid} --tier quick --no-evidence", VERIF)
-            if rcc != 0:
-                lines = [l for l in oc.splitlines() if "VIOLATED" in l or l.startswith("ANALYSIS-ERROR") or "UNDECIDED" in l]
-                bad.append((pid, rcc, lines[:4]))
+        def run(pid):
+            return pid, sh(f"./check {pid} --tier quick --no-evidence", VERIF)
+        with ThreadPoolExecutor(16) as ex:
+            for pid, (rcc, oc) in ex.map(run, pids):
+                if rcc != 0:
+                    lines = [l for l in oc.splitlines() if "VIOLATED" in l or l.startswith("ANALYSIS-ERROR") or "UNDECIDED" in l or "Error" in l]
+                    bad.append((pid, rcc, lines[:4]))
     finally:
         sh("git checkout -- .", "/repo")
+    total_bad += len(bad)
     print(f"{os.path.basename(diff)}: " + ("all checks silent" if not bad else f"{len(bad)} check(s) NOT silent"))
     for pid, rcc, lines in bad:
         print(f"   {pid} exit {rcc}")
         for l in lines:
-            print("      " + l[:300])
+            print("      " + l[:260])
+print(f"TOTAL not-silent: {total_bad}")
